@@ -95,6 +95,7 @@ struct Inner {
     rule: String,
     exhaustive: Option<bool>,
     notes: Vec<String>,
+    render: Option<Value>,
 }
 
 pub fn hash64<T: Hash + ?Sized>(t: &T) -> u64 {
@@ -193,6 +194,10 @@ impl Ctx {
     }
     pub fn note(&self, n: impl Into<String>) {
         self.inner.borrow_mut().notes.push(n.into());
+    }
+    /// A human-readable rendering of the case being checked; stored in the replay file of a violation.
+    pub fn set_render(&self, v: Value) {
+        self.inner.borrow_mut().render = Some(v);
     }
     pub fn frozen(&self) -> bool {
         self.inner.borrow().frozen
@@ -303,6 +308,7 @@ impl Ctx {
             "signature": f.sig,
             "message": f.msg,
             "case": case,
+            "rendered": self.inner.borrow().render.clone(),
         });
         std::fs::write(&path, serde_json::to_string_pretty(&body).unwrap()).ok();
         let mut i = self.inner.borrow_mut();
